@@ -6,10 +6,7 @@ from common import *
 
 
 def run_setup():
-    fi_src = os.path.join(HARNESS, "fi.c")
-    if os.path.exists(fi_src):
-        os.makedirs(WORK, exist_ok=True)
-        run(["gcc", "-O2", "-shared", "-fPIC", "-o", os.path.join(WORK, "fi.so"), fi_src, "-ldl", "-lpthread"])
+    ensure_fi()
     bad = []
     for f in sorted(glob.glob(os.path.join(SPEC, "*.tla"))):
         rc, out = run(["tla-sany", f], check=False, cwd=SPEC, timeout=120)
